@@ -26,10 +26,9 @@ import (
 )
 
 const (
-	envStage  = "VERIF_C14_STAGE"
-	envCase   = "VERIF_C14_CASE"
-	envOut    = "VERIF_C14_OUT"
-	envStream = "VERIF_C14_STREAM"
+	envStage = "VERIF_C14_STAGE"
+	envCase  = "VERIF_C14_CASE"
+	envOut   = "VERIF_C14_OUT"
 
 	nonceBase = uint64(1) << 40
 )
